@@ -45,6 +45,9 @@ impl std::ops::DerefMut for Pt3s {
 
 impl std::fmt::Display for Pt3s {
     fn fmt(&self, f: &mut std::fmt::Formatter<'_>) -> std::fmt::Result {
+        if self.is_empty() {
+            return write!(f, "[]");
+        }
         write!(f, "[")?;
         for i in 0..self.len() - 1 {
             write!(f, "{},", self[i])?
